@@ -2,4 +2,4 @@
 Require Extraction.
 Require Import ExtrOcamlBasic.
 Require Import Model.Base Model.Ir Model.Propagate Model.Justify Model.SsaCheck.
-Separate Extraction Base.base_roots Base.outcome Ir.cfg Ir.set_blocks Propagate.propagate Justify.vjust_cfg SsaCheck.ssa_check.
+Separate Extraction Base.base_roots Base.outcome Ir.cfg Ir.set_blocks Propagate.propagate Justify.vjust_cfg Justify.ldefs_unique_cfg SsaCheck.ssa_check.
